@@ -51,6 +51,11 @@ pub struct SweepJob {
     pub low: Vec<u8>,
     pub high_incl: Vec<u8>,
     pub entry: Entry,
+    /// fault history before the sweep: one call of the same entry point on the same bounds during which the RNG
+    /// fails — 0 none, 1 panics on the first draw, 2 reports an error on the first draw, 3 delivers an all-ones word
+    /// and panics on the next draw, 4 delivers a zero word and panics on the next draw. The call's outcome is ignored;
+    /// what is checked is that the sampler still has exactly equal fibres afterwards (crash, then verify).
+    pub preamble: u8,
 }
 
 #[derive(Clone, Debug)]
@@ -172,6 +177,20 @@ pub fn sweep_one(ty: &dyn TyObj, job: &SweepJob, threads: usize) -> SweepOutcome
     };
 
     crate::exec::set_in_sim(true);
+    if job.preamble != 0 {
+        use crate::simrng::Plan;
+        let plan: Vec<Plan> = match job.preamble {
+            1 => vec![Plan::Panic],
+            2 => vec![Plan::Err],
+            3 => vec![Plan::Fixed(vec![0xFF; wbytes]), Plan::Panic, Plan::Panic],
+            _ => vec![Plan::Fixed(vec![0; wbytes]), Plan::Panic, Plan::Panic],
+        };
+        let mut rng = SimRng::new(0xFA17_0000, false);
+        rng.begin_call_vol(&plan, wbytes);
+        let _ = std::panic::catch_unwind(std::panic::AssertUnwindSafe(|| {
+            ty.one_call(&job.low, &high_api, job.entry, &mut rng);
+        }));
+    }
     if threads <= 1 || nwords < (1 << 20) {
         let (a, rj) = worker(0, nwords);
         accepted.fetch_add(a, Ordering::Relaxed);
@@ -252,6 +271,7 @@ impl SweepJob {
             .set("low", J::Str(hex(&self.low)))
             .set("high_inclusive", J::Str(hex(&self.high_incl)))
             .set("entry", J::s(self.entry.name()))
+            .set("fault_preamble", J::i(self.preamble as i64))
     }
     pub fn from_json(j: &J) -> Result<SweepJob, String> {
         Ok(SweepJob {
@@ -259,6 +279,7 @@ impl SweepJob {
             low: unhex(j.get("low").and_then(|x| x.str()).ok_or("low")?)?,
             high_incl: unhex(j.get("high_inclusive").and_then(|x| x.str()).ok_or("high_inclusive")?)?,
             entry: Entry::from_name(j.get("entry").and_then(|x| x.str()).ok_or("entry")?).ok_or("bad entry")?,
+            preamble: j.get("fault_preamble").and_then(|x| x.int()).unwrap_or(0) as u8,
         })
     }
 }
